@@ -24,6 +24,25 @@ def big_dup_case(rng):
     return {'spec': {'encoding': 'utf-8', 'uuid': 'bigdup-%08x' % rng.getrandbits(32), 'base': [['D2D3D4', pa], ['D2D3D4', pb]], 'prince': [],
                      'terms': terms, 'omen': None, 'pool': 'bigdup'}, 'flags': {'skip_brute': False, 'all_lower': False, 'folder': 'Grammar'}, 'big': True}
 
+def above_one_cases(rng):
+    """What the trainer writes for a list whose passwords all share one structure and whose variables each have a single (tied) group: with --skip_brute the
+    one remaining structure is rescaled to p / (1 - P(M)), which is 1 on paper and 1.0000000000000002 as floats for these (N, coverage): the most probable
+    pre-terminal has a probability above 1."""
+    out = []
+    for N, c in [(1, 0.2), (1, 0.1), (7, 0.6), (11, 0.6), (14, 0.6), (3, 0.45), (5, 0.7)]:
+        pseudo = N / c - N
+        p, pm = N / (N + pseudo), pseudo / (N + pseudo)
+        if not p / (1.0 - pm) > 1.0:
+            continue
+        om = rulesets.gen_omen(rng, alphabet='ab', ngram=2, max_len=3)
+        om['probs'] = [[0, 0.01]]; om['keyspace'] = [[l, 1] for l in range(19)]
+        shape = rng.choice([('A3D2', {'A3': [['abc', 1.0], ['dog', 1.0]], 'C3': [['LLL', 1.0]], 'D2': [['12', 1.0]]}),
+                            ('D4', {'D4': [['2580', 1.0]]}), ('A4', {'A4': [['pass', 1.0]], 'C4': [['LLLL', 1.0], ['ULLL', 1.0]]})])
+        base = sorted([[shape[0], p], ['M', pm]], key=lambda r: -r[1])
+        out.append({'spec': {'encoding': 'utf-8', 'uuid': 'above1-%08x' % rng.getrandbits(32), 'base': base, 'prince': [], 'terms': shape[1], 'omen': om, 'pool': 'above1'},
+                    'flags': {'skip_brute': True, 'all_lower': False, 'folder': 'Grammar'}, 'cli': True})
+    return out
+
 def gen_case(rng):
     if rng.random() < 0.2:
         from .. import trained
@@ -157,6 +176,10 @@ def run(run, rng):
         for zc in trained.ZERO_KEYSPACE_CASES:
             run.ev('zero_keyspace_trainings')
             run.guard({'train': dict(zc), 'spec': {'base': [], 'prince': [], 'pool': 'trained'}, 'flags': {'skip_brute': False, 'all_lower': False, 'folder': 'Grammar'}}, check_case, seconds=120)
+    if run.shard[0] == 1 % run.shard[1]:
+        for case in above_one_cases(rng):
+            run.ev('rescaled_probability_above_one_cases')
+            run.guard(case, check_case, seconds=60)
     for i in range(N[run.tier]):
         case = gen_case(rng)
         run.guard(case, check_case, seconds=60)
